@@ -1197,6 +1197,13 @@ impl Obj for HeadersW {
 
 // ------------------------------------------------------------------ Obj: segments
 
+/// segment height byte at `at` set to heights the position arithmetic cannot represent
+fn segment_height_mutations(b: &[u8], at: usize, out: &mut Vec<Mutation>) {
+	for h in [64u8, 65, 128, 255] {
+		mutate_sig(out, "segment-height-out-of-range", "noncanonical-accepted:SegmentIdentifier:height", b, |m| m[at] = h);
+	}
+}
+
 impl Obj for SegmentIdentifier {
 	fn tag() -> String {
 		"SegmentIdentifier".into()
@@ -1205,7 +1212,10 @@ impl Obj for SegmentIdentifier {
 		eq("segment id", self, y)
 	}
 	fn shape(&self) -> (bool, String) {
-		(false, "id".into())
+		(self.height > 0, format!("h{}", if (9..=13).contains(&self.height) { "node" } else if self.height == 63 { "max" } else if self.height == 0 { "0" } else { "x" }))
+	}
+	fn mutations(&self, _v: u32, b: &[u8], out: &mut Vec<Mutation>) {
+		segment_height_mutations(b, 0, out);
 	}
 }
 
@@ -1270,6 +1280,7 @@ impl<T: Obj + Clone + std::fmt::Debug> Obj for Segment<T> {
 			out.push(Mutation { rule: "layout-mismatch", bytes: b"segment count fields not where expected".to_vec(), strict: false, sig: None });
 			return;
 		}
+		segment_height_mutations(b, 0, out);
 		position_mutations(b, 17, nh, ("segment-hash-pos-unsorted", "segment-hash-pos-repeated", "segment-hash-pos-zero"), out);
 		position_mutations(b, nl_at + 8, nl, ("segment-leaf-pos-unsorted", "segment-leaf-pos-repeated", "segment-leaf-pos-zero"), out);
 		mutate(out, "count-more-segment-hashes", false, b, |m| put64(m, 9, nh as u64 + 1));
@@ -1327,6 +1338,7 @@ impl Obj for BitmapSegment {
 			return;
 		};
 		let n = blocks.len() as u16;
+		segment_height_mutations(b, 0, out);
 		for &(at, nc, mode, cnt) in [blocks.first(), blocks.last()].into_iter().flatten() {
 			for t in [3u8, 0x80, 0xff] {
 				mutate(out, "bitmap-block-mode-unknown", true, b, |m| m[at + 1] = t);
@@ -1405,6 +1417,9 @@ impl Obj for SegmentRequest {
 	fn shape(&self) -> (bool, String) {
 		(false, "req".into())
 	}
+	fn mutations(&self, _v: u32, b: &[u8], out: &mut Vec<Mutation>) {
+		segment_height_mutations(b, 32, out);
+	}
 }
 
 impl<T: Obj + Clone + std::fmt::Debug> Obj for SegmentResponse<T> {
@@ -1417,6 +1432,9 @@ impl<T: Obj + Clone + std::fmt::Debug> Obj for SegmentResponse<T> {
 	}
 	fn shape(&self) -> (bool, String) {
 		self.segment.shape()
+	}
+	fn mutations(&self, _v: u32, b: &[u8], out: &mut Vec<Mutation>) {
+		segment_height_mutations(b, 32, out);
 	}
 }
 
@@ -1431,6 +1449,9 @@ impl Obj for OutputSegmentResponse {
 	fn shape(&self) -> (bool, String) {
 		self.response.shape()
 	}
+	fn mutations(&self, _v: u32, b: &[u8], out: &mut Vec<Mutation>) {
+		segment_height_mutations(b, 32, out);
+	}
 }
 
 impl Obj for OutputBitmapSegmentResponse {
@@ -1444,6 +1465,9 @@ impl Obj for OutputBitmapSegmentResponse {
 	}
 	fn shape(&self) -> (bool, String) {
 		self.segment.shape()
+	}
+	fn mutations(&self, _v: u32, b: &[u8], out: &mut Vec<Mutation>) {
+		segment_height_mutations(b, 32, out);
 	}
 }
 
@@ -2166,8 +2190,13 @@ fn pos_list(max: usize) -> impl Strategy<Value = Vec<u64>> {
 		.prop_map(|s| s.into_iter().collect())
 }
 
+/// heights the segment arithmetic supports (SegmentIdentifier::read refuses 64 and above); nodes use 9..=13
+fn seg_height() -> impl Strategy<Value = u8> {
+	prop_oneof![3 => 0u8..=63, 2 => 9u8..=13, 1 => Just(0u8), 1 => Just(63u8)]
+}
+
 fn segspec() -> impl Strategy<Value = SegSpec> {
-	(any::<u8>(), u64_edges(), pos_list(5), pos_list(5), any::<u64>(), 0u8..8)
+	(seg_height(), u64_edges(), pos_list(5), pos_list(5), any::<u64>(), 0u8..8)
 		.prop_map(|(height, idx, hpos, lpos, seed, proof_n)| SegSpec { height, idx, hpos, lpos, seed, proof_n })
 }
 
@@ -2322,14 +2351,14 @@ pub enum SegKind {
 
 fn segkind() -> impl Strategy<Value = SegKind> {
 	prop_oneof![
-		1 => (any::<u8>(), u64_edges()).prop_map(|(a, b)| SegKind::Id(a, b)),
+		1 => (seg_height(), u64_edges()).prop_map(|(a, b)| SegKind::Id(a, b)),
 		1 => (any::<u64>(), 0u8..12).prop_map(|(a, b)| SegKind::Proof(a, b)),
 		3 => segspec().prop_map(SegKind::OutIds),
 		3 => segspec().prop_map(SegKind::Proofs),
 		3 => segspec().prop_map(SegKind::Kernels),
 		2 => (any::<u8>(), any::<u8>(), any::<u8>(), any::<u64>()).prop_map(|(leaves, seg_h, seg_idx, seed)| SegKind::FromPmmr(PmmrSegSpec { leaves, seg_h, seg_idx, seed })),
 		3 => bmspec().prop_map(SegKind::Bitmap),
-		1 => (any::<u64>(), any::<u8>(), u64_edges()).prop_map(|(a, b, c)| SegKind::Request(a, b, c)),
+		1 => (any::<u64>(), seg_height(), u64_edges()).prop_map(|(a, b, c)| SegKind::Request(a, b, c)),
 		1 => (any::<u64>(), segspec()).prop_map(|(a, b)| SegKind::RespProofs(a, b)),
 		1 => (any::<u64>(), segspec()).prop_map(|(a, b)| SegKind::RespKernels(a, b)),
 		1 => (any::<u64>(), segspec()).prop_map(|(a, b)| SegKind::RespOutputs(a, b)),
@@ -2954,6 +2983,7 @@ pub fn run(ctx: &Ctx) -> HResult<()> {
 	ev.assume("blake2b (blake2-rfc) is trusted for the identity-hash oracle; hash collisions are treated as impossible");
 	ev.assume("an encoding whose count field promises more items than present may decode only if it is, by coincidence, the exact canonical encoding of the decoded value (never observed); all other derived violations must fail outright");
 	ev.assume("PeerAddr: IPv6 addresses of the IPv4-mapped form ::ffff:a.b.c.d are not generated (PeerAddr::read deliberately turns exactly that form into the IPv4 address); every other address, including the IPv4-compatible form ::a.b.c.d (::1, ::, ::0.0.0.2), must round-trip as written; flowinfo/scope_id are not on the wire and are generated as 0");
+	ev.assume("segment identifiers are generated with heights 0..=63 (SegmentIdentifier::read refuses 64 and above; nodes use 9..=13); bitmap segments with height 0..=13, idx < 2^40 and at most 130 chunks, so the leaf offset stays far below the 2^62 bound BitmapSegment::read enforces");
 	ev.assume("range proofs are generated with the one length every writer emits (675); encodings declaring another length are exercised only by the part rangeproof-length, whose acceptance is reported under the single signature rangeproof-length-normalised");
 	ev.assume("trailing bytes after a complete value are measured (classes trailing_byte_*), not asserted: the ser API has no end-of-value notion");
 	LIB.prefetch(&universe());
